@@ -3,6 +3,12 @@
 import json, subprocess
 hooks_commits = subprocess.run(["git","-C","/repo","log","--format=%h %s","--grep=^verif hooks"],capture_output=True,text=True).stdout.strip().splitlines()
 CLAIMED = {
+ "C01": ("reference-model lock-step oracle over a state-space sweep and random histories",
+         "Every call is executed on the real Memfs and on a reference tree filesystem written from the trait documentation; after every call the result (value or documented error kind) and the complete post state (hook snapshot: names, kinds, bytes, link targets, modes, owners, cwd) must equal an outcome the reference allows, and a failed call must leave the snapshot unchanged. Driven by a breadth-first sweep over all reference states of a bounded namespace x a finite alphabet of every mutator/query/path/spelling (to the fixpoint or a state cap, which the evidence states) and by seeded random histories with hostile data over a larger namespace.",
+         "Reference = docs + pinned unit tests; docs-silent either-points accept Ok or Err (counted in the evidence); no intermediate symlink resolution in the reference.", "5/C01"),
+ "C03": ("invariant walker at a hook (state snapshot) after every call",
+         "After every call of the C01 workloads plus an invalid-argument sweep from every swept state, the complete internal state (hook snapshot) is walked for exactly the clauses of the statement (parent exists, is a real directory and lists the child; listed names exist; entry path == key; data records == regular files; reachability from / == all keys; cwd/root absolute; lock not poisoned) and cross-checked through exists()/all_paths()/Display.",
+         "Invariants are observed at call boundaries; concurrent quiescent points are covered by C04's runs.", "5/C03"),
  "C14": ("reference-function monitor over exhaustive + random inputs",
          "sys::clean / PathExt::clean are run on every string over {/,.,a,b} up to length 9 (quick) / 11 (thorough, 5.6 M inputs) and on seeded random strings over a wide alphabet; a monitor compares each result with a byte-level port of Go's path.Clean and checks idempotence, absoluteness and non-emptiness. Exhaustive below the bound, sampled above it.",
          "Trusts the Go port in harness/src/refs.rs (written from the published algorithm, no std::path). UTF-8 inputs only.", "5/C14"),
